@@ -81,6 +81,9 @@ func genC05(g *Gen, n int) {
 	for _, fs := range c05SizeLimitLists(false) {
 		c05EmitCreate(g, "example.com/m", "v1.0.0", fs, "size-limited-name-placement")
 	}
+	for _, l := range c05TotalLists() {
+		c05EmitCreate(g, "example.com/m", "v1.0.0", c05TotalDeclared(l), "total-size-accumulation")
+	}
 	for _, fs := range c05AncestorClashLists() {
 		c05EmitCreate(g, "example.com/m", "v1.0.0", fs, "ancestor-clash")
 	}
@@ -188,6 +191,190 @@ func c05AncestorClashLists() [][]*zipuFile {
 		}
 	}
 	return out
+}
+
+// ---- the TOTAL size limit reached by accumulation over three or more files
+//
+// c05TotalLists: lists of k >= 3 valid regular files whose sizes sum to MaxZipFile exactly (must be
+// created, and the archive must pass CheckZip) or to a little more (must be refused: the archive could
+// not pass CheckZip, whose total is over the limit), while NO single file and NO two files adjacent in
+// list order exceed the limit on their own.  The total limit is then only enforced if the check really
+// accumulates over the whole list.  Shapes: k equal parts (k = 3, 4, 5, 8); two halves and a byte, the
+// byte first / in the middle / last; a file of MaxZipFile-1 followed by an empty file and two one-byte
+// files; halving sizes; and the same with files that must NOT count towards the total in between
+// (vendored package file, submodule file, symlink, directory, pipe -- all with a huge reported size).
+// This class was missing: the fixed lists stop at 16 MiB contents, and the random lists draw reported
+// sizes from zipuFakeSizes independently per file, so three valid files that pass pairwise and fail in
+// total (250 MiB, 250 MiB and something positive, or 500 MiB-1 and two single bytes, with nothing
+// oversized among them) practically never come together; and there the contents are a few bytes, so
+// Create would write a small archive that CheckZip accepts whatever CheckFiles said.
+// A list is (path, mode, size) only: the generator emits it with contents of one byte (reported sizes
+// that are larger than the content -- Create then consults the reported sizes only, and the model can
+// evaluate the op; 200 MiB of list cells per file it could not); the oracle gives the same list HONEST
+// contents produced on the fly (c05LazyFile below).
+type c05TotalList struct {
+	name string
+	fs   []*zipuFile // content nil: the reported size stands for that many zero bytes
+	over bool        // the valid files sum to more than MaxZipFile
+}
+
+func c05TotalLists() []c05TotalList {
+	const M = int64(modzip.MaxZipFile)
+	reg := func(p string, n int64) *zipuFile { return &zipuFile{path: p, mode: 'r', size: n} }
+	names := []string{"a.bin", "b/b.bin", "c.bin", "d/e/d.bin", "e.bin", "f.bin", "g.bin", "h.bin"}
+	mk := func(sizes ...int64) []*zipuFile {
+		var fs []*zipuFile
+		for i, n := range sizes {
+			fs = append(fs, reg(names[i], n))
+		}
+		return fs
+	}
+	var out []c05TotalList
+	add := func(name string, over bool, fs []*zipuFile) {
+		out = append(out, c05TotalList{name: name, fs: fs, over: over})
+	}
+	for _, k := range []int64{3, 4, 5, 8} {
+		at := make([]int64, k)
+		ov := make([]int64, k)
+		for i := range at {
+			at[i], ov[i] = M/k, M/k
+		}
+		at[k-1] += M % k // exactly M
+		ov[0] += M%k + 1 // M+1, the excess in the first file
+		add("equal-parts-"+itoa(int(k))+"-at", false, mk(at...))
+		add("equal-parts-"+itoa(int(k))+"-over", true, mk(ov...))
+	}
+	add("halves-byte-last-at", false, mk(M/2, M/2-1, 1))
+	add("halves-byte-last-over", true, mk(M/2, M/2, 1))
+	add("halves-byte-first-over", true, mk(1, M/2, M/2))
+	add("halves-byte-middle-over", true, mk(M/2, 1, M/2))
+	add("halves-byte-middle-at", false, mk(M/2-1, 1, M/2))
+	add("almost-all-empty-two-bytes-over", true, mk(M-1, 0, 1, 1))
+	add("almost-all-empty-byte-at", false, mk(M-1, 0, 1, 0))
+	add("halving-over", true, mk(M/2, M/4, M/8, M/8, 1))
+	add("halving-at", false, mk(M/2, M/4, M/8, M/8-1, 1))
+	add("rising-over", true, mk(1, M/8, M/8, M/4, M/2))
+	// files that do not count towards the total, between the ones that do
+	gomod := &zipuFile{path: "go.mod", mode: 'r', size: 21, content: []byte("module example.com/m\n")}
+	skip := func() []*zipuFile {
+		return []*zipuFile{
+			reg("vendor/x.org/y/y.go", M/2),
+			{path: "sub/go.mod", mode: 'r', size: 23, content: []byte("module example.com/m/s\n")},
+			reg("sub/s.bin", M/2),
+			{path: "link", mode: 's', size: M / 2},
+			{path: "dir", mode: 'd', size: M / 2},
+			{path: "pipe", mode: 'i', size: M / 2},
+		}
+	}
+	inter := func(sizes ...int64) []*zipuFile {
+		fs := []*zipuFile{gomod}
+		sk := skip()
+		for i, n := range sizes {
+			fs = append(fs, reg(names[i], n))
+			if 2*i+1 < len(sk) {
+				fs = append(fs, sk[2*i], sk[2*i+1])
+			}
+		}
+		return fs
+	}
+	add("not-counted-between-at", false, inter(M/2, M/2-21-1, 1))
+	add("not-counted-between-over", true, inter(M/2, M/2-21, 1))
+	add("not-counted-between-thirds-over", true, inter(M/3, M/3, M/3, 1))
+	return out
+}
+
+// c05TotalQuick: the lists AT the limit that the quick oracle runs with honest contents.
+var c05TotalQuick = map[string]bool{"equal-parts-3-at": true, "almost-all-empty-byte-at": true, "not-counted-between-at": true}
+
+// c05TotalDeclared: the list as the generator emits it: every regular file without content gets one
+// byte of content (so its reported size is larger than what Open yields).
+func c05TotalDeclared(l c05TotalList) []*zipuFile {
+	var fs []*zipuFile
+	for _, f := range l.fs {
+		if f.mode == 'r' && f.content == nil && f.size > 0 {
+			fs = append(fs, &zipuFile{path: f.path, mode: 'r', size: f.size, content: []byte("x")})
+		} else {
+			fs = append(fs, f)
+		}
+	}
+	return fs
+}
+
+// c05LazyFile: a zipuFile whose content, when nil, is `size` zero bytes produced while reading (three
+// files of 200 MiB each are not held in memory).
+type c05LazyFile struct{ *zipuFile }
+
+type c05Zeros struct{}
+
+func (c05Zeros) Read(b []byte) (int, error) {
+	for i := range b {
+		b[i] = 0
+	}
+	return len(b), nil
+}
+
+func (f c05LazyFile) Open() (io.ReadCloser, error) {
+	if f.mode == 'r' && f.content == nil && f.size > 0 {
+		return io.NopCloser(io.LimitReader(c05Zeros{}, f.size)), nil
+	}
+	return f.zipuFile.Open()
+}
+
+// c05CheckTotal states the property for one such list with honest contents: creation succeeds exactly
+// when the file check reports no error; a created archive passes the zip check with no invalid entry
+// and no size error, and obeys the documented total-size restriction.  (The extraction clauses are
+// checked on the ordinary lists: extracting 500 MiB per list is outside the budget.)
+func c05CheckTotal(g *Gen, l c05TotalList) {
+	m := module.Version{Path: "example.com/m", Version: "v1.0.0"}
+	files := make([]modzip.File, len(l.fs))
+	for i, f := range l.fs {
+		files[i] = c05LazyFile{f}
+	}
+	// replay lines: the list with its reported sizes (contents of one byte); the implementation must
+	// treat it as the model does
+	decl := c05TotalDeclared(l)
+	lines := []string{"zip.checkfiles " + zipuFilesTok(decl), "zip.create " + hx(m.Path) + " " + hx(m.Version) + " " + zipuFilesTok(decl)}
+	info := "list " + l.name + " with honest contents (zero bytes of the reported sizes):"
+	for _, f := range l.fs {
+		info += " " + f.path + ":" + string(f.mode) + ":" + i64toa(f.size)
+	}
+	g.Case("create-iff-checkfiles-total")
+	_, cfErr := modzip.CheckFiles(files)
+	tmp := zipuTemp()
+	defer os.RemoveAll(tmp)
+	zp := filepath.Join(tmp, "a.zip")
+	w, err := os.Create(zp)
+	if err != nil {
+		return
+	}
+	cerr := modzip.Create(w, m, files)
+	w.Close()
+	if (cerr == nil) != (cfErr == nil) {
+		g.Fail("C05 create-iff: Create and CheckFiles disagree on a valid module with honest sizes", "create="+zipuErrKind(cerr)+" checkfiles-ok="+showBool(cfErr == nil)+"; "+info, lines...)
+		return
+	}
+	if cerr != nil {
+		return
+	}
+	g.Case("roundtrip-total")
+	zcf, zerr := modzip.CheckZip(m, zp)
+	if zerr != nil || len(zcf.Invalid) != 0 || zcf.SizeError != nil {
+		g.Fail("C05 roundtrip: CheckZip rejects an archive produced by Create", zipuErrKind(zerr)+"; "+info, lines...)
+		return
+	}
+	g.Case("restrictions-total")
+	zr, err := zip.OpenReader(zp)
+	if err != nil {
+		return
+	}
+	defer zr.Close()
+	var total uint64
+	for _, zf := range zr.File {
+		total += zf.UncompressedSize64
+	}
+	if total > modzip.MaxZipFile {
+		g.Fail("C05 restrictions: total uncompressed size of a created archive exceeds MaxZipFile", "total "+itoa(int(total))+"; "+info, lines...)
+	}
 }
 
 // c05Specials: the path elements the zip rules treat specially (go.mod placement / case / size, the
@@ -453,6 +640,14 @@ func oracleC05(g *Gen, n int) {
 	}
 	for _, fs := range c05SizeLimitLists(true) {
 		c05Check(g, "example.com/m", "v1.0.0", fs)
+	}
+	for _, l := range c05TotalLists() {
+		c05Check(g, "example.com/m", "v1.0.0", c05TotalDeclared(l)) // reported sizes only (small archive)
+		// honest contents: a list over the limit costs nothing as long as Create refuses it; a list at the
+		// limit costs about 1.7 s (500 MiB through the compressor), so the quick tier takes three of the nine
+		if l.over || thorough || c05TotalQuick[l.name] {
+			c05CheckTotal(g, l)
+		}
 	}
 	for _, fs := range c05AncestorClashLists() {
 		c05Check(g, "example.com/m", "v1.0.0", fs)
